@@ -19,7 +19,10 @@ EndViol(e) ==
      (IF e.hung THEN {"C13_thread_did_not_reach_a_yield_point"} ELSE {})
   \cup (IF e.scenario \in {"stream", "mio6", "mio8"} /\ e.del < e.ins
           THEN {"C13_consumer_parked_while_sample_available_" \o e.scenario} ELSE {})
-  \cup (IF e.scenario \in {"stream", "mio6", "mio8"} /\ e.ins < e.n THEN {"C13_not_all_samples_inserted"} ELSE {})
+  \cup (IF e.scenario \in {"stream", "mio6", "mio8", "nkstream", "nkbare"} /\ e.ins < e.n THEN {"C13_not_all_samples_inserted"} ELSE {})
+  \* un-keyed stream: del counts the values handed over, vals the values among the items inserted (disposes are never shown)
+  \cup (IF e.scenario \in {"nkstream", "nkbare"} /\ e.del < e.vals
+          THEN {"C13_consumer_parked_while_sample_available_" \o e.scenario} ELSE {})
   \cup (IF e.scenario = "awrite" /\ e.done < e.target THEN {"C13_async_write_parked_although_queue_has_room"} ELSE {})
   \cup (IF e.scenario = "await" /\ e.done < e.target THEN {"C13_async_wait_for_acknowledgments_never_completes"} ELSE {})
 
